@@ -22,7 +22,7 @@ def gen_cases(ctx, n):
         ind = g["indict"]
         i += 1
         r = rng.random()
-        if r < 0.3:
+        if r < 0.3 or (g["shape"] in ("const_drift", "offset_single", "chain_from_offset") and r < 0.75):
             ind["options"] = {"output_timestep_symbol": rng.choice(["dt", "h_step", "__res"]), "differential_order_symbol": rng.choice(["__d", "_D", "__prime"])}
         if rng.random() < 0.3 and "parameters" in ind:
             # a parameter referenced only by an initial value
